@@ -1,8 +1,8 @@
 SPECIFICATION Spec
 CONSTANTS
-  Families = {"frac"}
+  Families = {"frac", "ns"}
   Big = TRUE
   Faithful = FALSE
-INVARIANTS TypeOK CarriesSame RefIsEncoding EncodingIndependent ViewDiffLocal DevOnlyWhereViewsDiffer DecoderFacts
+INVARIANTS TypeOK CarriesSame RefIsEncoding SlotSound NonScalarAgree EncodingIndependent ViewDiffLocal DevOnlyWhereViewsDiffer DecoderFacts
 CHECK_DEADLOCK FALSE
 VIEW View
